@@ -141,7 +141,7 @@ def history(ctx, lw, rng, kind):
     observed_once = False
     for i in range(n_steps):
         reconfig = ["edit", "param", "input", "circuit_same", "circuit_heralds", "herald_in_place", "rejected",
-                    "failed_read"]
+                    "failed_read", "global_threshold"]
         if kind == "Sampler":
             reconfig += ["source_mut", "source_new", "backend", "detector"]
             obs = ["read", "sample", "n_inputs", "n_outputs"]
@@ -280,6 +280,12 @@ def history(ctx, lw, rng, kind):
             elif step == "counting":
                 obj.photon_counting = not obj.photon_counting
                 changed_since_obs = "detector_mode_toggled"
+            elif step == "global_threshold":
+                # the library-wide truncation threshold of the emulator is a setting like any other: a fresh object
+                # uses its current value, so must a long-lived one (restored at the end of the history)
+                lw.settings.sampler_probability_threshold = float(rng.choice([1e-12, 1e-9, 1e-6, 1e-3, 0.02, 0.2]))
+                trace[-1].append(lw.settings.sampler_probability_threshold)
+                changed_since_obs = "library_threshold_changed"
             elif step == "failed_read":
                 # something is reconfigured, then a read *fails* because a Parameter holds a value its component cannot
                 # take; the Parameter is put back to exactly its earlier value and the next read must be that of the
@@ -355,6 +361,7 @@ def history(ctx, lw, rng, kind):
                               mechanism=ob["mechanism"], monitor=ob["monitor"])
             else:
                 ctx.count("other_property_observations:" + ob["prop"])
+    lw.settings.sampler_probability_threshold = 1e-9
     ctx.case((kind, tuple(t[0] for t in trace[1:])), nontrivial, sample={"history": trace})
 
 
